@@ -115,14 +115,12 @@ static void run_repro(Json& js, vh::Rng& rng, int smax, int reps) {
             }
         }
     }
-    // a fresh thread without any seeding behaves as seed 0: first the reference (explicit rng(0)), then unseeded threads
-    // started while other threads have been seeded with something else
+    // what a thread that never seeds observes does not depend on what other threads have seeded: an unseeded reference thread
+    // first, then the main thread seeds with something else, then more unseeded threads - all must draw the same values
     {
         const int tid = next_tid++;
         js.begin("Thread").num("tid", tid).end();
         std::thread th([&] {
-            dsplib::rng(0);
-            js.begin("Seed").num("tid", tid).num("seed", 0).end();
             vh::Rng sc(77);
             for (int i = 0; i < 4; ++i) {
                 random_call(js, sc, tid);
